@@ -288,7 +288,7 @@ Lemma to_likelihood_spec hints h0 h d data name : ext h0 h ->
   forall h1 r, to_likelihood hints h d data name = (h1, r) -> ext h0 h1 /\ length h <= r.
 Proof.
   intros E h1 r H. unfold to_likelihood, alloc in H. destruct (get h d) as [o|] eqn:G.
-  - destruct (cond_vars hints h o); inversion H; subst; split; try lia; apply ext_alloc; assumption.
+  - destruct (cond_vars' hints h o); inversion H; subst; split; try lia; apply ext_alloc; assumption.
   - inversion H; subst. split; auto. apply get_none. assumption.
 Qed.
 
@@ -306,14 +306,32 @@ Proof.
   induction fs as [|f fs IH]; intros h E L; simpl; auto. apply IH; auto. apply ext_setattr_fresh; assumption.
 Qed.
 
+(* the geometry getter run on a location allocated by the current operation *)
+Lemma geometry_getter_ext_fresh h0 h l dim : ext h0 h -> length h0 <= l -> ext h0 (geometry_getter h l dim).
+Proof.
+  intros E L. unfold geometry_getter. destruct (get h l) as [o|]; auto.
+  destruct (getf o "_geometry") as [[| | | | |g| | |]|]; auto.
+  assert (N : forall h1 g1, ext h0 h1 ->
+            ext h0 match getf o "_name" with Some (VStr s) => setattr h1 g1 "_variable_name" (VStr s) | _ => h1 end).
+  { intros h1 g1 E1. destruct (getf o "_name") as [[| |s| | | | | |]|]; auto. apply ext_setattr_cache; [reflexivity | assumption]. }
+  destruct dim as [d|]; [|apply N; assumption].
+  destruct (unset_geom_at h g); [|apply N; assumption].
+  unfold alloc. apply N. apply ext_setattr_fresh; [apply ext_alloc; assumption | assumption].
+Qed.
+
 Lemma py_setattr_ext h0 h n key v : ext h0 h -> length h0 <= n -> ext h0 (py_setattr h n key v).
 Proof.
   intros E L. unfold py_setattr. destruct (get h n) as [o|]; auto.
   destruct (getf o key); [apply ext_setattr_fresh; assumption|].
   destruct (setter_fields (class_of o) key (is_concrete h v)) as [|f0 rest]; auto.
-  apply (fold_setattr_fresh h0 n (fun f => if str_eqb f "_cov" then if str_eqb key "cov" then
+  assert (X : ext h0 (fold_left (fun hh f => setattr hh n f (if str_eqb f "_cov" then if str_eqb key "cov" then
+      match v with VRef _ | VClo _ _ | VNone => v | _ => wild end else VNone else wild)) rest
+      (setattr h n f0 match v with VRef _ | VClo _ _ | VNone => v | _ => wild end))).
+  { apply (fold_setattr_fresh h0 n (fun f => if str_eqb f "_cov" then if str_eqb key "cov" then
       match v with VRef _ | VClo _ _ | VNone => v | _ => wild end else VNone else wild)); auto.
-  apply ext_setattr_fresh; assumption.
+    apply ext_setattr_fresh; assumption. }
+  destruct (str_eqb (class_of o) "Gaussian" && negb (str_eqb key "mean") && is_concrete h v); [|exact X].
+  apply geometry_getter_ext_fresh; assumption.
 Qed.
 
 Lemma cond_loop_ext app h0 self n o_self kw :
@@ -387,17 +405,11 @@ Proof.
   apply ext_setattr_fresh; assumption.
 Qed.
 
-(* the geometry getter run on a location allocated by the current operation *)
-Lemma geometry_getter_ext_fresh h0 h l dim : ext h0 h -> length h0 <= l -> ext h0 (geometry_getter h l dim).
+Lemma geometry_getter_none_ext h0 h l : ext h0 h -> ext h0 (geometry_getter h l None).
 Proof.
-  intros E L. unfold geometry_getter. destruct (get h l) as [o|]; auto.
+  intros E. unfold geometry_getter. destruct (get h l) as [o|]; auto.
   destruct (getf o "_geometry") as [[| | | | |g| | |]|]; auto.
-  assert (N : forall h1 g1, ext h0 h1 ->
-            ext h0 match getf o "_name" with Some (VStr s) => setattr h1 g1 "_variable_name" (VStr s) | _ => h1 end).
-  { intros h1 g1 E1. destruct (getf o "_name") as [[| |s| | | | | |]|]; auto. apply ext_setattr_cache; [reflexivity | assumption]. }
-  destruct dim as [d|]; [|apply N; assumption].
-  destruct (unset_geom_at h g); [|apply N; assumption].
-  unfold alloc. apply N. apply ext_setattr_fresh; [apply ext_alloc; assumption | assumption].
+  destruct (getf o "_name") as [[| |s| | | | | |]|]; auto. apply ext_setattr_cache; [reflexivity | assumption].
 Qed.
 
 Lemma geometry_getter_length h l dim : length h <= length (geometry_getter h l dim).
@@ -444,7 +456,13 @@ Proof.
     { rewrite Forall_forall in F. destruct (F _ Hin) as [Fr|[_ Nd]]; [assumption | congruence]. }
     pose proof (geometry_getter_ext_fresh h0 h d (Some wild) E Fr) as Eq.
     pose proof (geometry_getter_length h d (Some wild)) as Lq.
-    unfold alloc in H. inversion H; subst. split.
+    assert (Eq' : forall g, ext h0 (geometry_getter h g None)) by (intros g; apply geometry_getter_none_ext; assumption).
+    assert (Lq' : forall g, length h <= length (geometry_getter h g None)) by (intros g; apply geometry_getter_length).
+    destruct (if str_eqb (class_at h d) "RegularizedGaussian"
+              then match getattr h d "_gaussian" with Some (VRef g) => Some g | _ => None end else None) as [gi|];
+    unfold alloc in H; inversion H; subst; split.
+    - apply add_constants_fresh; [apply ext_alloc; apply Eq' | specialize (Lq' gi); destruct E; lia].
+    - left. specialize (Lq' gi). destruct E. lia.
     - apply add_constants_fresh; [apply ext_alloc; assumption | destruct E; lia].
     - left. destruct E. lia. }
   destruct (Nat.eqb (count_if (is_dist_at h) rs) 1 && Nat.eqb (count_if (is_lik_at h) rs) 0).
@@ -483,7 +501,7 @@ Proof.
     assert (E3 : ext h (setattr h2 nl "distribution" (VRef nd))).
     { apply ext_setattr_fresh; [eapply ext_trans; eassumption | assumption]. }
     destruct (get (setattr h2 nl "distribution" (VRef nd)) nd) as [ond|]; [|discriminate].
-    destruct (cond_vars hints (setattr h2 nl "distribution" (VRef nd)) ond).
+    destruct (cond_vars' hints (setattr h2 nl "distribution" (VRef nd)) ond).
     - apply some_pair_inv in H. destruct (to_likelihood_spec _ _ _ _ _ _ E3 _ _ H) as [E4 L4]. split; auto.
       left. destruct E3. lia.
     - inversion H; subst. split; auto. left. assumption. }
@@ -498,6 +516,20 @@ Proof.
     - eapply Forall_impl; [|exact F2]. intros a [Fa|[La Da]]; [left; assumption|]. right.
       split; [rewrite setattr_length; assumption|].
       unfold is_dist_at in *. rewrite class_at_setattr; [assumption|]. intros X; discriminate. }
+  destruct (str_eqb (class_of o) "RegularizedGaussian").
+  { destruct (getf o "_gaussian") as [[| | | | |g| | |]|]; try discriminate.
+    destruct (name_of 50 h self) as [nm|]; [|discriminate].
+    destruct (negb _); [discriminate|].
+    destruct (mem_str "_main_parameter" (keys kw)); [discriminate|].
+    destruct (make_copy h self) as [h1 n] eqn:Em. destruct (make_copy_spec _ _ _ _ Em) as [E1 L1].
+    destruct (cond hints false k h1 g _) as [[h2 ng]|] eqn:Ek; [|discriminate].
+    destruct (IH _ _ _ _ _ Ek) as [E2 _].
+    assert (E3 : ext h (setattr h2 n "_gaussian" (VRef ng))).
+    { apply ext_setattr_fresh; [eapply ext_trans; eassumption | assumption]. }
+    destruct (lookup kw nm) as [v|].
+    - apply some_pair_inv in H. destruct (to_likelihood_spec _ _ _ _ _ _ E3 _ _ H) as [E4 L4]. split; auto.
+      left. destruct E3. lia.
+    - inversion H; subst. split; auto. left. assumption. }
   destruct (existsb _ (keys kw)); [discriminate|].
   destruct (make_copy h self) as [h1 n] eqn:Em. destruct (make_copy_spec _ _ _ _ Em) as [E1 L1].
   destruct (cond_loop (fun hh d => cond hints false k hh d []) h1 self n o kw (mutable_vars hints o) []) as [[h2 processed]|] eqn:El;
